@@ -1,12 +1,18 @@
-import YaclibModel.Proofs.CoSharedMutex
+import YaclibModel.Proofs.CoSharedMutexS_rdFsub_1
+import YaclibModel.Proofs.CoSharedMutexS_rdFsub_2
+import YaclibModel.Proofs.CoSharedMutexS_rdFsub_3
+import YaclibModel.Proofs.CoSharedMutexS_rdFsub_4
+import YaclibModel.Proofs.CoSharedMutexS_rdFsub_5
 namespace Yaclib.CoSharedMutex
 
-set_option maxHeartbeats 4000000 in
 theorem inv_rdFsub {cfg : Cfg} {s : State} (hi : Inv cfg s) (c : Cid) (h : s.pc c = .rUn1) :
     Inv cfg ((doRdFsub s c)) := by
-  cases hi
   by_cases hW : s.W = 0
-  · simp only [doRdFsub, hW, ↓reduceIte]; sm_auto [List.count_le_length]
-  · cases hpw : s.pw <;> simp only [doRdFsub, hW, ↓reduceIte] <;> sm_auto [List.count_le_length]
+  · exact inv_rdFsub_1 hi c h hW
+  · cases hpw : s.pw with
+    | none => exact inv_rdFsub_2 hi c h hW hpw
+    | a n r => exact inv_rdFsub_3 hi c h hW n r hpw
+    | b n => exact inv_rdFsub_4 hi c h hW n hpw
+    | c n b => exact inv_rdFsub_5 hi c h hW n b hpw
 
 end Yaclib.CoSharedMutex
